@@ -78,6 +78,17 @@ def mixed_mode_programs(h, w):
                     return (('setdefault',), ('act', 'set', (('matrix', S('m'), (N(h - 1), None), (N(0), None)),)))
                 yield (('units', m1),) + regs(m1, q) + cmd(m1) + (('units', m2),) + regs(m2, q) + cmd(m2) + \
                     (('act', 'set', (('light', S('a')),)),)
+    # a units switch between two stages of one block (with and without new register values after it), and
+    # between `set default` and the command that uses the default
+    for m1, m2 in (('logical', 'rgb'), ('rgb', 'logical'), ('logical', 'raw'), ('raw', 'rgb'), ('rgb', 'raw'), ('raw', 'logical')):
+        for q in quads[2:4]:       # values that are in range in every unit mode
+            for reset in (False, True):
+                mid = (('units', m2),) + (regs(m2, q) if reset else ())
+                body = (('stage', (N(0), None), None),) + mid + (('stage', None, (N(w - 1), None)),)
+                yield (('units', m1),) + regs(m1, q) + (('act', 'set', (('block', S('m'), body),)),
+                                                         ('act', 'set', (('light', S('a')),)))
+                yield (('units', m1),) + regs(m1, q) + (('setdefault',),) + mid + \
+                    (('act', 'set', (('matrix', S('m'), (N(0), None), None),)),)
 
 
 def matrix_programs(h, w, max_stages, reduced):
